@@ -121,6 +121,12 @@ def stepI (retention : Int) (σ : Inst) (op obs : List String) : Inst × List Ms
       | some e => s!"{e.key},{e.ts},{showNatList e.firing},{showNatList e.resolved},{e.data}"
     let pf := if spec = res then [] else [Msg.propfail "query_spec" "query-mismatch" s!"key={key} query={res} dump={spec}"]
     (σ, expectEq "query" m res ++ pf ++ (if m = "notfound" then [] else [.tag "query:found"]))
+  | ["storemut", _now, key, _val], [res, dmp] =>
+    -- editing a Store derived from a queried entry records nothing: the log is unchanged
+    let cur := parseEntries dmp
+    let pf := if cur = σ.implPrev then [] else
+      [Msg.propfail "data_preserved" "aliased" s!"key={key} log changed by editing a derived Store: before={joinList ";" (σ.implPrev.map showEntry)} after={dmp}"]
+    ({ σ with implPrev := cur }, expectEq "storemut.dump" (dump σ.st) dmp ++ pf ++ (if res = "edited" then [.tag "storemut:edited"] else []))
   | ["reload"], [dmp] =>
     let st' := reload σ.st
     let cur := parseEntries dmp
